@@ -470,18 +470,18 @@ func classifyH(c CaseH) core.Class {
 	if xffAfterEdit {
 		cl.Labels = append(cl.Labels, fmt.Sprintf("post-with-xff-after-edit|trust-xff:%v", c.Cfg.BehindRedir))
 	}
-	cl.Fingerprint = fmt.Sprintf("%s|trust=%v|edits=%d|last=%s|%s", c.Start, c.Cfg.BehindRedir, edits, strings.Split(last, "+")[0], fp)
+	cl.Fingerprint = fmt.Sprintf("%s|trust=%v|last=%s|%s", c.Start, c.Cfg.BehindRedir, strings.Split(last, "+")[0], fp)
 	return cl
 }
 
 func TestC12h(t *testing.T) {
 	core.Run(t, core.Spec[CaseH]{
 		Property: "C12", Sub: "h",
-		Rule: "histories on one running listener of a real Teamserver (ts.ListenerStart): 0-3 requests, then 1-3 rounds of {an operator edit through the real ts.ListenerEdit, 1-4 requests}. Edits send the dialog's whole form and change one or two of: URIs (empty the list, fill an empty one, change one element, add, remove one, replace all), user agent (set/unset/change), request headers (empty, fill, change a value, add, remove one). Requests are generated as in (a) around the configuration in force or (40% after an edit) around the previous one, and every one is judged by (a)'s reference judge against the configuration in force at that moment: admitted <=> new entry in ts.Agents with 200 + registration reply + response headers + ExternalIP; otherwise 404, no new agent, no new retained event. Non-trivial: a request served, then an edit, then a request that satisfies the new configuration or was aimed at the old one; distinct = (#edits, kind of the last edit, aim and verdict of the first such request)",
+		Rule: "histories on one running listener of a real Teamserver whose profile has Demon.TrustXForwardedFor true or false (half each). The listener is started either by the operator's Listener.Add package through the real DispatchEvent (2/3) or by ts.ListenerStart with the configuration teamserver.go builds for a profile listener, response headers included (1/3). Then 0-3 requests and 1-3 rounds of {an operator Listener.Edit package (the dialog's whole form, Info keys and ', '-joined lists exactly as the client sends them) through the real DispatchEvent -> ts.ListenerEdit, 1-4 requests}. Edits change one or two of: URIs (empty the list, fill an empty one, change one element, add, remove one, replace all), user agent (set/unset/change), request headers (empty, fill, change a value, add, remove one). Requests are generated as in (a) around the configuration in force or (40% after an edit) around the previous one, carry X-Forwarded-For always when the profile trusts the redirector and in a third of the cases otherwise, and every one is judged by (a)'s reference judge against the configuration in force at that moment, the redirector flag being the profile's throughout: admitted <=> new entry in ts.Agents with 200 + registration reply + response headers + ExternalIP (X-Forwarded-For iff the profile trusts the redirector, else the peer); otherwise 404, no new agent, no new retained event. Non-trivial: a request served, then an edit, then a request that satisfies the new configuration or was aimed at the old one; distinct = (start mode, profile flag, kind of the last edit, aim and verdict of the first such request)",
 		Gen:  genH, Check: checkH, Classify: classifyH,
 		Assumptions: []string{
-			"ListenerEdit is called directly with the HTTPConfig that dispatch.go builds from the operator's edit package (empty lists are nil); the package decoding itself belongs to C16",
-			"BehindRedir is taken from the profile on add and on every edit, as dispatch.go / ListenerEdit do; it therefore does not change during a history; response headers are not part of an edit",
+			"operator packages are dispatched without a connected operator socket (replies to 'the user' and broadcasts are no-ops), as CreatePackage + EventAppend + DispatchEvent, which is what handleRequest does after authentication",
+			"list elements contain no ', ' (the operator protocol joins lists with it); an operator cannot configure response headers, so only profile-started listeners have them; the redirector flag belongs to the profile and does not change during a history",
 			"the assumptions of sub-check a about request delivery and grey zones apply",
 		},
 	})
